@@ -97,8 +97,6 @@ def expand(ts, macros, budget):
             out.append((t, hs))
             ts = rest
             continue
-        if saw_endl:
-            raise Outside("line end between a function-like macro name and its parenthesis")
         # collect actuals
         depth, args, cur = 0, [], []
         j = k + 1
